@@ -138,10 +138,10 @@ class Exclusivity(O.Monitor):
         for nd in self.nodes:
             if nd.overtime:
                 self.activity["overtime_completions"] += len(nd.overtime)
-        # utilisation: for completed simulate_until_max_time calls (one or several: stopping and continuing does not change the statistics)
-        # without any pre-emption
+        # utilisation: for completed simulate_until_max_time calls (one or several: stopping and continuing does not change the statistics),
+        # with or without pre-emption (busy time = time attached to a customer, whether or not that service was later interrupted)
         steps = Q.plan_steps
-        if self.preemptive or res.calls_completed != len(steps) or not steps or any(st_[0] != "max_time" for st_ in steps) or res.aborted or res.budget_hit:
+        if res.calls_completed != len(steps) or not steps or any(st_[0] != "max_time" for st_ in steps) or res.aborted or res.budget_hit:
             return
         T = float(steps[-1][1])
         if len(steps) > 1:
